@@ -24,7 +24,7 @@ ASSUMPTIONS = [
     "text: alphabet 'a', U+00E9, U+20AC, U+1D11E, U+FEFF; strings up to 3 characters; encodings utf-8, utf-16, utf-32, latin-1 (latin-1 restricted to its repertoire)",
 ]
 OUTSIDE = ["byte strings longer than the stated bound, more than 3 calls in a sequence", "codec internals (C code) are executed concretely", "suspension/cancellation inside the wrapped receive()"]
-MUST_REACH = ["buf:delimiter-spans-chunks", "buf:surplus-kept", "buf:incomplete-read", "buf:delimiter-not-found", "buf:exactly-across-chunks", "buf:fed-data-first", "buf:fault-during-call",
+MUST_REACH = ["buf:delimiter-spans-chunks", "buf:surplus-kept", "buf:incomplete-read", "buf:delimiter-not-found", "buf:exactly-across-chunks", "buf:fed-data-first", "buf:fault-during-call", "buf:long-delimiter-mostly-in-older-chunk",
               "text:split-inside-character", "text:multi-send"]
 
 
@@ -93,7 +93,7 @@ def _mk_stubs():
     return ObjSrc, ByteSrc
 
 
-def _one_call(sym, cov, s, src, op, idx, L, kind, chunks, c1, c2, feed, unread, consumed, invariant):
+def _one_call(sym, cov, s, src, op, idx, L, kind, chunks, c1, c2, feed, unread, consumed, invariant, DL=2):
     from anyio import DelimiterNotFound, EndOfStream, IncompleteRead
 
     if True:
@@ -130,7 +130,7 @@ def _one_call(sym, cov, s, src, op, idx, L, kind, chunks, c1, c2, feed, unread, 
             cov.hit("buf:exactly-across-chunks", n > before and len(chunks) > 1)
             consumed += out
         else:
-            delim = sym.bytes("delim%d" % idx, 2)
+            delim = sym.bytes("delim%d" % idx, DL)
             sym.assume(len(delim) >= 1)
             mb = sym.int("mb%d" % idx, 0, L + 2)
             try:
@@ -149,7 +149,8 @@ def _one_call(sym, cov, s, src, op, idx, L, kind, chunks, c1, c2, feed, unread, 
             chk(out == unread[:pos], "receive_until-wrong-bytes", {"pos": pos, "len": len(out)})
             chk(out.find(delim) < 0, "receive_until-includes-delimiter")
             # did the delimiter straddle a chunk boundary?
-            cov.hit("buf:delimiter-spans-chunks", len(delim) == 2 and len(chunks) > 1 and any(pos + 1 == b for b in (c1, c2)))
+            cov.hit("buf:delimiter-spans-chunks", len(delim) >= 2 and len(chunks) > 1 and any(pos < b < pos + len(delim) for b in (c1, c2)))
+            cov.hit("buf:long-delimiter-mostly-in-older-chunk", len(delim) == 3 and len(chunks) > 1 and any(pos + 2 == b for b in (c1, c2)))
             consumed += out + delim
     return consumed
 
@@ -158,7 +159,7 @@ class _Fault(Exception):
     pass
 
 
-def buffered(sym, cov, kind, calls, L, feed=False, fault=None):
+def buffered(sym, cov, kind, calls, L, feed=False, fault=None, DL=2):
     """kind: 'obj' | 'byte'; calls: string over {'r','e','u'} = receive / receive_exactly / receive_until"""
     from anyio import DelimiterNotFound, EndOfStream, IncompleteRead
     from anyio.streams.buffered import BufferedByteReceiveStream
@@ -202,7 +203,7 @@ def buffered(sym, cov, kind, calls, L, feed=False, fault=None):
             import asyncio
 
             try:
-                consumed = _one_call(sym, cov, s, src, op, idx, L, kind, chunks, c1, c2, feed, unread, consumed, invariant)
+                consumed = _one_call(sym, cov, s, src, op, idx, L, kind, chunks, c1, c2, feed, unread, consumed, invariant, DL)
                 invariant(op)
             except (asyncio.CancelledError, _Fault):
                 # a call that fails consumes nothing: everything taken so far is still in the buffer
@@ -242,7 +243,7 @@ def buffered(sym, cov, kind, calls, L, feed=False, fault=None):
             cov.hit("buf:exactly-across-chunks", n > before and len(chunks) > 1)
             consumed += out
         else:
-            delim = sym.bytes("delim%d" % idx, 2)
+            delim = sym.bytes("delim%d" % idx, DL)
             sym.assume(len(delim) >= 1)
             mb = sym.int("mb%d" % idx, 0, L + 2)
             try:
@@ -261,7 +262,8 @@ def buffered(sym, cov, kind, calls, L, feed=False, fault=None):
             chk(out == unread[:pos], "receive_until-wrong-bytes", {"pos": pos, "len": len(out)})
             chk(out.find(delim) < 0, "receive_until-includes-delimiter")
             # did the delimiter straddle a chunk boundary?
-            cov.hit("buf:delimiter-spans-chunks", len(delim) == 2 and len(chunks) > 1 and any(pos + 1 == b for b in (c1, c2)))
+            cov.hit("buf:delimiter-spans-chunks", len(delim) >= 2 and len(chunks) > 1 and any(pos < b < pos + len(delim) for b in (c1, c2)))
+            cov.hit("buf:long-delimiter-mostly-in-older-chunk", len(delim) == 3 and len(chunks) > 1 and any(pos + 2 == b for b in (c1, c2)))
             consumed += out + delim
         invariant(op)
 
@@ -373,6 +375,8 @@ def units(tier):
         for calls in seqs1:
             us.append({"name": "buf %s %s L=%d" % (kind, calls, L + 1 if not quick else L), "fn": buffered,
                        "params": {"kind": kind, "calls": calls, "L": L if quick else L + 1}, "budget_s": B})
+        us.append({"name": "buf %s u 3-byte delimiter L=%d" % (kind, 4 if quick else 5), "fn": buffered,
+                   "params": {"kind": kind, "calls": "u", "L": 4 if quick else 5, "DL": 3}, "budget_s": B})
         for calls in seqs2:
             us.append({"name": "buf %s %s L=%d" % (kind, calls, 2 if quick else 3), "fn": buffered,
                        "params": {"kind": kind, "calls": calls, "L": 2 if quick else 3}, "budget_s": B})
